@@ -329,6 +329,8 @@ def peval(node: ast.AST, env: Optional[Dict[str, object]] = None, funcs: Optiona
                     raise NotPure("isinstance class")
             if fn in ("range",) and args and max(abs(int(x)) for x in args) > 1 << 20:
                 raise NotPure("range too large")
+            if fn == "next" and node.args and isinstance(node.args[0], ast.GeneratorExp) and isinstance(args[0], (list, tuple)):
+                args = [iter(args[0])] + list(args[1:])       # generator expressions are evaluated eagerly; next(<genexp>, default) takes its first item
             return _guard(lambda: _BUILTINS[fn](*args, **kw))
         if isinstance(node.func, ast.Attribute) and (isinstance(node.func.value, (ast.Name, ast.Attribute)) or
                                                    (isinstance(node.func.value, ast.Call) and not any(isinstance(x, ast.Attribute) and x.attr in ("pop", "popleft") for x in ast.walk(node.func.value)))):
@@ -711,6 +713,10 @@ class _Scope(dict):
         dict.__delitem__(self, k)
 
 
+class _ClassTable(dict):
+    """A class-level dict of the class's own functions, evaluated for one environment (its entries forward to that environment's bound methods)."""
+
+
 def bind_methods(env: Dict[str, object], classes, funcs=None, skip: Iterable[str] = (), only_missing: bool = True) -> Dict[str, object]:
     """Bind ``self.<method>`` of the given ClassDef nodes (bases first, most derived last) in the live environment ``env`` as
     callables that interpret the method body: locals are private to the call, ``self.*`` entries are shared (written back), so an
@@ -757,6 +763,29 @@ def bind_methods(env: Dict[str, object], classes, funcs=None, skip: Iterable[str
                 if only_missing and key in preset:
                     continue
                 env[key] = make(st)
+    # class-level tables that hold the class's own functions (``_handlers = {TAG: _tagReceived, ...}``): the plain functions are
+    # called with the instance passed explicitly, ``handler(self, ...)`` - modelled by forwarding to the bound interpretation
+    for c in classes:
+        own = {st.name for st in c.body if isinstance(st, ast.FunctionDef)}
+        for st in c.body:
+            if not (isinstance(st, ast.Assign) and len(st.targets) == 1 and isinstance(st.targets[0], ast.Name)):
+                continue
+            key = "self." + st.targets[0].id
+            mentioned = {n.id for n in ast.walk(st.value) if isinstance(n, ast.Name) and n.id in own and ("self." + n.id) in env}
+            if (key in env and not isinstance(env[key], _ClassTable)) or not mentioned or not isinstance(st.value, ast.Dict):
+                continue
+
+            def unbound(name):
+                def _interp(_self, *a, **kw):
+                    return env["self." + name](*a, **kw)
+                _interp.method_name = name
+                return _interp
+            local = {k: v for k, v in env.items() if isinstance(k, str)}
+            local.update({n: unbound(n) for n in mentioned})
+            try:
+                env[key] = _ClassTable(peval(st.value, local, funcs))      # rebuilt when copied into another environment and bound again
+            except (NotPure, Raised):
+                pass
     return env
 
 
